@@ -1,11 +1,17 @@
 """C06 -- validity is structural; validity check and evaluation agree."""
-from vlib import evalcorr, exprs
+from vlib import evalcorr, exprs, runner
 from vlib.props import c04
-from vlib.runner import finish
+from vlib.runner import finish, gbool, glist, gtext
+
+VIMPORTS = ("From Ahb Require Import Model.Prelude Model.Grammar Gen.Gen_logic Gen.Gen_valmaps Gen.Gen_enums Model.EvalRC Model.EvalFC Model.EvalAhb "
+            "Model.Keys Model.Validity Corr.Eval Corr.Validity.")
 
 
 def run(ctx):
     built, cases = c04.common(ctx, "Props/C06.vo")
+    ok_v, log_v = runner.coq_make(["Corr/Validity.vo"]) if runner.REPLAY is None else (True, "")
+    if not ok_v:
+        ctx.broke("Coq build failed for Corr/Validity.vo", log_v[-1500:])
     raws = c04.correspondence(ctx, cases, "C06", levels=("node",))
     # oracle: raises under some assignment <=> under all <=> structurally invalid
     per = {}
@@ -63,9 +69,13 @@ def validity_check_oracle(ctx, per):
         binder.bind_to_provider(EvaluatableDataProvider, data)
 
     inject.clear_and_configure(cfg)
+    from ahbicht.expressions.condition_expression_parser import extract_categorized_keys_from_tree
+    from vlib import valcorr
+
     names = sorted(per)
     ctx.rng.shuffle(names)
     n = 0
+    vterms, vmeta = [], []
     try:
         for name in names[: 250 if ctx.quick else 4000]:
             t = per[name][0]
@@ -78,10 +88,26 @@ def validity_check_oracle(ctx, per):
             want = exprs.valid(t)
             if tag != "ok" or v[0] is not want or (want and v[1] is not None) or (not want and not isinstance(v[1], str)):
                 ctx.fail(f"is_valid|{s}", {"expression": s}, f"({want}, {'None' if want else 'reason'})", str((tag, v))[:200], "oracle: validity check agrees with the structural criterion")
+            # correspondence with Model/Validity.v: the resolved tree and its sanitized key lists in, the verdict out
+            res = valcorr.resolved(s)
+            nx = valcorr.nx_term(res)
+            if nx.startswith("(Ok "):
+                ex = extract_categorized_keys_from_tree(res[1], sanitize=True)
+                if len(ex.format_constraint_keys) + len(ex.requirement_constraint_keys) <= 5:
+                    obs = f"(Ok {gbool(bool(v[0]))})" if tag == "ok" else f"(Exn {v})"
+                    vterms.append(f"({nx[4:-1]}, {glist(ex.hint_keys, gtext)}, {glist(ex.format_constraint_keys, gtext)}, {glist(ex.requirement_constraint_keys, gtext)}, {obs})")
+                    vmeta.append({"expression": s, "observed": str((tag, v))[:200]})
     finally:
         inject.clear()
         evalimpl._configured = False  # pylint: disable=protected-access
     ctx.add_eval(n)
+    nv, badv, errv = runner.run_case_files("C06_V", VIMPORTS, "valid_case", "valid_check", vterms, shard=60)
+    if errv:
+        ctx.broke("correspondence (validity check) could not be evaluated in Coq", errv)
+    for i in badv[:10]:
+        ctx.broke("correspondence mismatch (validity check): Model/Validity.v and is_valid_expression differ", str(vmeta[i]))
+    ctx.notes.setdefault("correspondence", {})["validity_check"] = {"cases": nv, "mismatches": len(badv)}
+    ctx.add_eval(nv)
     return n
 
 
